@@ -503,10 +503,11 @@ func plan(tier string) []*block {
 	add("C", families(tier, 1, lvFull, "+"), all)
 	add("C", families(tier, 2, lvFull, "+"), all)
 	add("C", crossFamilies(tier, true), all)
-	// D: depth 3 with the 16-mode set on all three nodes
-	ld := lvQuick
-	ld.grand = dom{0, 1, 2}
-	add("D", families(tier, 3, ld, "+"), []int{1, 3, 0})
+	// D: depth 3 again with special bits on the grandparent, for the user of
+	// the other group (kept last and small: A-D fit a 20 min budget on 16 cores)
+	ld := lvMini
+	ld.grand = dom{0, 0, 2}
+	add("D", families(tier, 3, ld, "s"), []int{3})
 
 	// within a phase the small blocks first: a budget cut then leaves as many
 	// blocks as possible complete (the counterexample kept for a signature is
